@@ -355,6 +355,11 @@ func H_PlaceBid() {
 		nd.Assert("C16.bid-flag-at-placement", rec.IsMatched == (bidType == types.BidTypeFixedPrice))
 	}
 	bd := addr(bidder)
+	// C04: what settlement later treats as "the reservation" of this bid (ceil of price x quantity for a quantity
+	// bid, the amount itself for a worth bid) is what really left the bidder's account and entered the escrow
+	nd.Assert("C04.reservation-taken-is-the-reservation-settlement-accounts-for", nd.And(
+		post.get(bd, denomPay).EQ(pre.get(bd, denomPay).Sub(wantPay)),
+		post.get(st.payingAddr(), denomPay).EQ(pre.get(st.payingAddr(), denomPay).Add(wantPay))))
 	nd.Assert("C02.bidder-pays-fee-and-reservation", nd.And(
 		post.get(bd, denomFee).EQ(pre.get(bd, denomFee).Sub(fee)),
 		post.get(bd, denomPay).EQ(pre.get(bd, denomPay).Sub(wantPay)),
@@ -457,6 +462,9 @@ func H_ModifyBid() {
 	sg := addr(signer)
 	if accepted {
 		nd.Cover("modify-accepted")
+		nd.Assert("C04.modify-tops-the-reservation-up-to-what-settlement-accounts-for", nd.And(
+			post.get(sg, denomPay).EQ(pre.get(sg, denomPay).Sub(delta)),
+			post.get(st.payingAddr(), denomPay).EQ(pre.get(st.payingAddr(), denomPay).Add(delta))))
 		nd.Assert("C11.modify-charges-exact-difference", nd.And(delta.GE(nd.ZOf(0)),
 			post.get(sg, denomPay).EQ(pre.get(sg, denomPay).Sub(delta)),
 			post.get(st.payingAddr(), denomPay).EQ(pre.get(st.payingAddr(), denomPay).Add(delta))))
